@@ -387,6 +387,17 @@ func init() {
 				d := w.Start() + Day(r.Range(0, 200))
 				w.Weather.Events = append(w.Weather.Events, WeatherEvent{Day: d, Kind: "drought", Len: r.Range(60, 300)}, WeatherEvent{Day: d, Kind: "heat", Val: float64(r.Range(28, 42)), Len: r.Range(20, 120)})
 			}
+			if idx%7 == 5 {
+				// very stony top soil: the span between field capacity and the dryness limit is smaller than a day's evaporation
+				for i := range w.Soil.Horizons {
+					w.Soil.Horizons[i].Stone = r.Range(65, 90)
+					if i > 0 {
+						w.Soil.Horizons[i].Stone = r.Range(0, 90)
+					}
+				}
+				d := w.Start() + Day(r.Range(0, 200))
+				w.Weather.Events = append(w.Weather.Events, WeatherEvent{Day: d, Kind: "drought", Len: r.Range(60, 300)}, WeatherEvent{Day: d, Kind: "heat", Val: float64(r.Range(28, 42)), Len: r.Range(20, 120)})
+			}
 			return &Scenario{Prop: "C06", Kind: "single", World: w, Bug: genBug(r.Sub("bug", 0), false)}
 		},
 		Exec: func(sc *Scenario, env *Env) *Result {
